@@ -16,7 +16,7 @@ CHECKS = {
    text="Converse direction of the same ledger predicate (NoFalseConflict model-checked): whenever the specification computes no conflict from the writes present in the responses, the real request must succeed (label C02-false-conflict); includes pre-populated originals/requests, pure removals followed by sets, remove-then-set.",
    ref="5/C02"),
  "C03": dict(engine="adjust", tech="TLA+ spec (Adjust + Container.OciApply) model-checked by TLC; scenario replay incl. the project's generator; TLC trace validation",
-   text="CombinedEquiv is model-checked (NriApply(orig, comb) = view and OciApply(orig, comb) = fold of OciApply over the responses); on the real code the combined adjustment returned by CreateContainer and each plugin's adjustment in turn are applied with the repository's generator and both results must equal the specification's OciFold (labels C03-combined, C03-sequential).",
+   text="CombinedEquiv is model-checked (NriApply(orig, comb) = view and OciApply(orig, comb) = fold of OciApply over the responses); on the real code the combined adjustment returned by CreateContainer and each plugin's adjustment in turn are applied with the repository's generator and both results must equal the specification's OciFold (labels C03-combined, C03-sequential; the swap limit that accompanies a memory limit may be the limit or untouched, but the same in both), list their mounts in the same order (C03-mount-order) and carry the device cgroup allow rule of every device the final container got from a plugin (C03-device-rules).",
    ref="5/C03"),
  "C04": dict(engine="adjust", tech="TLA+ spec (Adjust views) model-checked by TLC; scenario replay; TLC trace validation of what each real plugin handler received",
    text="At every Apply event the container (create) / resources (update) the real plugin handler received after the real wire path must equal the specification's view, and NriApply(original, returned combined adjustment) must equal the final view (labels C04-view, C04-resources, C04-combined).",
@@ -31,7 +31,7 @@ CHECKS = {
    text="Mux.tla is model-checked (WellFormed, PrefixInv, Isolated, Complete, ChunksContiguous; without the write lock TLC must find a violation). Recorded runs of the real mux over a socket pair - concurrent writers on both ends, self-describing messages incl. empty payloads and the frame-size boundaries up to 3*max+5, queue lengths 1/2/16/256 - must be behaviours of the specification: every frame the reader parses is the next frame that entered the trunk under the write lock (no interleaving inside a message), every Read returns the head of its own connection's queue intact, and at quiescence everything written has been read, in order, per connection.",
    ref="5/C10", note="Trusted base: TLC; the before/after logging discipline (R2); the harness' frame descriptors. Assumes connection ids opened on both ends before traffic, reader buffers of at least one frame, frames in flight within the queue length."),
  "C11": dict(engine="mux", tech="TLA+ spec (Mux faults: Cut, CloseA, CloseB, overflow; MuxTable: handles, re-opened ids, repeated Close) model-checked by TLC incl. liveness AfterClose/WritersEnd; TLC-enumerated fault placements (Gen_Mux) replayed on the real mux with a byte-cutting trunk; traces validated by TLC",
-   text="Design: PrefixInv under every fault and the liveness properties AfterClose / WritersEnd are model-checked. Gen_Mux enumerates the trunk cut after byte k in either direction (every k in thorough, every 3rd in quick), a close of either end after j frames by 1, 2 or 8 concurrent closers, and overflow at every position for queue lengths 1 and 2; each is realised on the real mux in a child process (a panic is observed as such). The validated trace must show: received data always the in-order prefix (queue head) of what was sent; an overflow only when the queue really was full; no Read/Write/Close/Accept hanging (3 s watchdog); writes after the failure fail; reads return queued frames and then an error (EOF after an orderly close); second Accept returns EOF after the listener is closed.",
+   text="Design: PrefixInv under every fault and the liveness properties AfterClose / WritersEnd are model-checked. Gen_Mux enumerates the trunk cut after byte k in either direction (every k in thorough, every 3rd in quick), a close of either end after j frames by 1, 2 or 8 concurrent closers, and overflow at every position for queue lengths 1 and 2; each is realised on the real mux in a child process (a panic is observed as such). The validated trace must show: received data always the in-order prefix (queue head) of what was sent; an overflow only when the queue really was full; no Read/Write/Close/Accept hanging (3 s watchdog); writes after the failure fail; reads return queued frames and then an error (EOF after an orderly close); second Accept returns EOF after the listener is closed. MuxTable sequences add: Close of a multiplexer whose reader was never unblocked returns (C11-close-hangs); every other scenario runs over a transport whose Close reports an error; every scenario closes 200 fresh wrapped listeners by eight goroutines released at the same instant.",
    ref="5/C11", note="As C10. After an error, reads may still return frames that were already queued (conn.Read selects between the closed channel and the queue); the property's prefix clause is what is asserted."),
  "C14": dict(engine="convert", tech="TLA+ spec (Convert: field tables, Copy contract, optional constructors, event-name table) enumerated by TLC; exported pkg/api functions executed on every enumerated input; outputs validated by TLC (Trace_Convert)",
    text="Convert.tla states which fields both representations carry, what Copy preserves, nil/value behaviour of each optional constructor and the bit<->name table of the event mask (TableOK checked by TLC). TLC enumerates inputs: every scalar resource field alone with boundary values incl. zero vs unset, all/none, lists, (thorough) every subset of the 17 common fields, Copy followed by mutation of each mutable part on either side (no shared state), mounts, devices, hooks in all six stages, env entries, every constructor x argument kind x boundary value, and all 8192 event masks (print, parse, IsSet) exhaustively in both tiers; the real functions' outputs must equal the specification's.",
@@ -58,10 +58,10 @@ CHECKS = {
    text="MC_Relay with malformed registrations in the accept queue (OnlyWellFormed, liveness RegsEnd: bad plugins never stop later ones). Gen_Reg enumerates name x index-string x mask x stall classes (empty/one/three digits, letters, sign, space, non-ASCII digits; foreign, high and sign bits; never registers / never answers Configure) alone and as up to 2 (3 thorough) bad plugins ahead of a good one; each is realised with raw mux+ttRPC peers; the trace specification decides well-formedness itself from the logged raw strings and rejects any Synchronize/event reaching a malformed peer, a well-formed peer not activated within the budget, a socket served when disabled, or a created socket directory with group/other permission bits (umask 000/022/077/007).",
    ref="5/C17", note="Trusted base as C06; timeouts shortened to 200 ms; slack 2 s."),
  "C19": dict(engine="relay", tech="TLA+ spec (Relay adaptation lock) model-checked by TLC; recorded executions with concurrent unsolicited updates validated by TLC",
-   text="CallbackExclusive is model-checked; in recorded runs the update callback must run only while the adaptation lock is held by that update (never overlapping a request, an activation or another update), exactly once per call with the payload sent, and the plugin must get back exactly the callback's failed list or error. A stub that was never started must answer ErrNoService at once (checked by the driver's preamble event).",
+   text="CallbackExclusive is model-checked; in recorded runs the update callback must run only while the adaptation lock is held by that update (never overlapping a request, an activation or another update), exactly once per call with the payload sent, and the plugin must get back exactly the callback's failed list or error - also for a request that carries no update at all (once per run, nil or empty list). A stub that was never started must answer ErrNoService at once (checked by the driver's preamble event).",
    ref="5/C19", note="Same trusted base as C06."),
  "C18": dict(engine="launch", tech="TLA+ spec (Launch: launchability, environment, configuration precedence, invocation order, reaping) enumerated by TLC; a probe plugin on the real stub launched by a real Adaptation from materialised plugin directories; reports validated by TLC (Trace_Launch)",
-   text="Launch.tla defines which directory entries are launched, with which environment, socket and configuration, in which order they are invoked and that nothing launched outlives Stop; TLC enumerates directory contents (two and three probe plugins in every combination of healthy / exits at once / never registers / dies later, among non-executables and subdirectories, equal indices, empty directory) and every combination of drop-in files for two plugins. Each is materialised with copies of a probe plugin built on the real stub; the probe's report of its environment, /proc/self/fd, configuration, the order of invocations and the process table after Stop must equal the specification's expectation.",
+   text="Launch.tla defines which directory entries are launched, with which environment, socket and configuration, in which order they are invoked and that nothing launched outlives Stop; TLC enumerates directory contents (two and three probe plugins in every combination of healthy / exits at once / never registers / dies later, among non-executables and subdirectories, equal indices, empty directory) and every combination of drop-in files for two plugins. Each is materialised with copies of a probe plugin built on the real stub; the probe's report of its environment, /proc/self/fd, configuration, the order of invocations and the process table after Stop must equal the specification's expectation. Further behaviours: fails its synchronization, registers under another identity, never answers an event (dropped - and must be killed), cannot be started at all (not a program, link to a directory), execute bits of owner / group / other only, stale NRI_* variables in the runtime's environment, the runtime's own synchronization callback failing.",
    ref="5/C18", note="Trusted base: TLC; the probe plugin (harness/cmd/probe). A zombie counts as not alive; anonymous inodes and pipes of the child's own Go runtime are ignored in the descriptor check; badly named executables, symlinks and special files are not generated."),
  "C20": dict(engine="inject", tech="TLA+ spec (Inject: annotation scoping and precedence, rlimit normalisation, all-or-nothing) checked and enumerated by TLC; the built sample plugin binaries run as pre-installed plugins of a real Adaptation; results validated by TLC (Trace_Inject)",
    text="Inject.tla defines which annotation is selected for a container (injector: container, then pod, then bare key; adjuster: container only) and the resulting adjustment; TLC checks NeverForeign and AllOrNothing on every generated scenario and emits them: per key every subset of {own container, a container whose name is a prefix/extension, pod, bare}, malformed payloads, unknown rlimit types and hard<soft at selected and non-selected scopes, all keys at once in every scope combination, names c1/c1x/a.b. The two plugins are built from /repo/plugins, launched as pre-installed plugins and exercised through Adaptation.CreateContainer; the returned adjustment or failure must equal the specification's.",
